@@ -8,7 +8,6 @@ package main
 
 import (
 	"bufio"
-	"bytes"
 	"encoding/json"
 	"flag"
 	"fmt"
@@ -88,9 +87,53 @@ func safeExec(p *Prop, c *Sexp) (o Outcome) {
 	return p.Exec(c)
 }
 
+// driverProc is one persistent model driver process, fed one case at a time so that a case whose
+// model evaluation explodes (cyclic ambiguous grammars) can be cut off: it is then killed, the case is
+// reported as "over-budget" (skipped, never a pass) and a fresh process continues.
+type driverProc struct {
+	cmd   *exec.Cmd
+	in    *bufio.Writer
+	lines chan string
+}
+
+func startDriver(driver string) (*driverProc, error) {
+	cmd := exec.Command(driver)
+	stdin, err := cmd.StdinPipe()
+	if err != nil {
+		return nil, err
+	}
+	stdout, err := cmd.StdoutPipe()
+	if err != nil {
+		return nil, err
+	}
+	if err := cmd.Start(); err != nil {
+		return nil, err
+	}
+	d := &driverProc{cmd: cmd, in: bufio.NewWriterSize(stdin, 1<<16), lines: make(chan string, 16)}
+	go func() {
+		sc := bufio.NewScanner(stdout)
+		sc.Buffer(make([]byte, 1<<20), 1<<28)
+		for sc.Scan() {
+			d.lines <- sc.Text()
+		}
+		close(d.lines)
+	}()
+	return d, nil
+}
+
+func (d *driverProc) kill() {
+	d.cmd.Process.Kill()
+	d.cmd.Wait()
+}
+
+var driverCaseTimeout = 6 * time.Second
+
 func runDriver(driver string, lines []string) ([]string, error) {
 	if len(lines) == 0 {
 		return nil, nil
+	}
+	if driver == "" {
+		return nil, fmt.Errorf("no model driver")
 	}
 	par := runtime.NumCPU()
 	if par > len(lines) {
@@ -99,45 +142,49 @@ func runDriver(driver string, lines []string) ([]string, error) {
 	out := make([]string, len(lines))
 	errs := make([]error, par)
 	var wg sync.WaitGroup
-	chunk := (len(lines) + par - 1) / par
+	next := make(chan int, len(lines))
+	for i := range lines {
+		next <- i
+	}
+	close(next)
 	for w := 0; w < par; w++ {
-		lo, hi := w*chunk, (w+1)*chunk
-		if hi > len(lines) {
-			hi = len(lines)
-		}
-		if lo >= hi {
-			continue
-		}
 		wg.Add(1)
-		go func(w, lo, hi int) {
+		go func(w int) {
 			defer wg.Done()
-			cmd := exec.Command(driver)
-			var in bytes.Buffer
-			for _, l := range lines[lo:hi] {
-				in.WriteString(l)
-				in.WriteByte('\n')
-			}
-			cmd.Stdin = &in
-			var ob, eb bytes.Buffer
-			cmd.Stdout = &ob
-			cmd.Stderr = &eb
-			if err := cmd.Run(); err != nil {
-				errs[w] = fmt.Errorf("driver: %v: %s", err, eb.String())
-				return
-			}
-			sc := bufio.NewScanner(&ob)
-			sc.Buffer(make([]byte, 1<<20), 1<<28)
-			i := lo
-			for sc.Scan() {
-				if i < hi {
-					out[i] = sc.Text()
+			var d *driverProc
+			defer func() {
+				if d != nil {
+					d.kill()
 				}
-				i++
+			}()
+			for i := range next {
+				if d == nil {
+					var err error
+					if d, err = startDriver(driver); err != nil {
+						errs[w] = err
+						return
+					}
+				}
+				d.in.WriteString(lines[i])
+				d.in.WriteByte('\n')
+				d.in.Flush()
+				select {
+				case l, ok := <-d.lines:
+					if !ok {
+						// the driver died on this case (e.g. stack exhaustion): cut it off the same way
+						out[i] = "over-budget"
+						d.kill()
+						d = nil
+					} else {
+						out[i] = l
+					}
+				case <-time.After(driverCaseTimeout):
+					out[i] = "over-budget"
+					d.kill()
+					d = nil
+				}
 			}
-			if i != hi {
-				errs[w] = fmt.Errorf("driver returned %d lines for %d cases: %s", i-lo, hi-lo, eb.String())
-			}
-		}(w, lo, hi)
+		}(w)
 	}
 	wg.Wait()
 	for _, e := range errs {
@@ -289,6 +336,9 @@ func cmdRun(args []string) int {
 			lines = append(lines, caseLine(p, c))
 			idx = append(idx, i)
 		}
+	}
+	if dump := os.Getenv("VERIF_DUMP_LINES"); dump != "" {
+		os.WriteFile(dump, []byte(strings.Join(lines, "\n")+"\n"), 0o644)
 	}
 	models, err := runDriver(*driver, lines)
 	if err != nil {
